@@ -28,14 +28,16 @@ ASSUMPTIONS = ["exception classes are compared by subclass relation (e.g. IndexE
                "assigned values of another dtype are small non-negative integers so the cast is defined",
                "a result that is a memmap or based on one is reported without touching its memory"]
 EXHAUSTIVE = None
-MUST_HIT = ['zero-extent-in-non-first-axis', 'mode:r/ctx:r+', 'mode:r+/ctx:r+', 'mode:r/ctx:None', 'mode:r+/ctx:r', 'ctx:nested-mixed-modes', 'ctx:live-iterator', 'write:readonly', 'setmode', 'idx:pybool', 'iter:close', 'iter:drop', 'iter:exhaust', 'idx:npint', 'idx:mask', 'idx:fullmask', 'idx:intarr', 'idx:none', 'idx:ell', 'idx:int-out-of-range', 'failed-write', 'failed-read',
+MUST_HIT = ['idx:indexobj', 'zero-extent-in-non-first-axis', 'mode:r/ctx:r+', 'mode:r+/ctx:r+', 'mode:r/ctx:None', 'mode:r+/ctx:r', 'ctx:nested-mixed-modes', 'ctx:live-iterator', 'write:readonly', 'setmode', 'idx:pybool', 'iter:close', 'iter:drop', 'iter:exhaust', 'idx:npint', 'idx:mask', 'idx:fullmask', 'idx:intarr', 'idx:none', 'idx:ell', 'idx:int-out-of-range', 'failed-write', 'failed-read',
             'empty-array', 'ctx:none', 'ctx:open', 'ctx:nested', 'write:otherdt', 'write:row', 'idx:badtype', 'idx:too-many',
             'write:mask']
 
 
 @st.composite
 def st_comp(draw, n):
-    k = draw(st.sampled_from(['int', 'int', 'slice', 'slice', 'ell', 'full', 'none', 'intarr', 'mask', 'badtype', 'pybool']))
+    k = draw(st.sampled_from(['int', 'int', 'slice', 'slice', 'ell', 'full', 'none', 'intarr', 'mask', 'badtype', 'pybool', 'indexobj']))
+    if k == 'indexobj':      # an object that is an integer only through __index__ (basic indexing for NumPy)
+        return {'t': 'indexobj', 'v': draw(st.integers(-n - 1, n))}
     if k == 'pybool':        # a Python bool is a 0-d boolean mask for NumPy, not the integer 0/1
         return {'t': 'pybool', 'v': draw(st.booleans())}
     if k == 'int':
@@ -115,6 +117,15 @@ def st_case(draw):
     return {'dt': draw(gens.st_dt()), 'shape': shape, 'seed': draw(st.integers(0, 2 ** 31)), 'ops': ops, 'mode': mode}
 
 
+class _Row:
+    """Not an int, but usable as one (operator.index): NumPy does basic indexing with it."""
+    def __init__(self, v):
+        self.v = int(v)
+
+    def __index__(self):
+        return self.v
+
+
 def build_idx(ix, shape):
     if ix['t'] == 'fullmask':
         rng = np.random.Generator(np.random.PCG64(ix['s']))
@@ -124,6 +135,8 @@ def build_idx(ix, shape):
         return tuple(build_idx(i, shape) for i in ix['v'])
     if ix['t'] == 'pybool':
         return bool(ix['v'])
+    if ix['t'] == 'indexobj':
+        return _Row(ix['v'])
     return gens.build_index(ix)
 
 
@@ -447,7 +460,7 @@ def fixed_specs():
     comps = [{'t': 'int', 'v': -1}, {'t': 'int', 'v': 9}, {'t': 'npint', 'v': 1}, {'t': 'slice', 'v': [None, None, -1]}, {'t': 'slice', 'v': [5, 1, None]},
              {'t': 'ell'}, {'t': 'none'}, {'t': 'intarr', 'v': [0, 0, -1]}, {'t': 'intlist', 'v': [1, 7]}, {'t': 'mask', 'v': [True, False, True]},
              {'t': 'mask', 'v': [True, False]}, {'t': 'str', 'v': 'a'}, {'t': 'float', 'v': 1.0}, {'t': 'dict'},
-             {'t': 'fullmask', 's': 3, 'wrong': False}, {'t': 'fullmask', 's': 3, 'wrong': True}, {'t': 'pybool', 'v': True}, {'t': 'pybool', 'v': False}]
+             {'t': 'fullmask', 's': 3, 'wrong': False}, {'t': 'fullmask', 's': 3, 'wrong': True}, {'t': 'pybool', 'v': True}, {'t': 'pybool', 'v': False}, {'t': 'indexobj', 'v': 1}, {'t': 'indexobj', 'v': -1}]
     # mode / context combinations with fixed accesses: a refused write on a read-only handle followed by a write inside an explicit
     # read-write block; reads inside read-only blocks and under read-only iterators; a read-write request nested in a read-only block
     W = {'k': 'set', 'idx': {'t': 'int', 'v': 0}, 'val': {'k': 'scalar', 's': 9}}
